@@ -544,9 +544,9 @@ def unit_gw_multi(ctx):
                     lines.append("FAIL C15 differs-from-solo-run h=%d (group of histories %d..%d) :: alone: agrees with the model; "
                                  "concurrently: %s" % (h, h - h % 3, h - h % 3 + 2, l[:300]))
     # any failure of a single-session property observed in a concurrent session is a C15 failure too
-    lines = [l for l in lines if not l.startswith("FAIL ")] + \
+    lines = [l for l in lines if not l.startswith("FAIL ") or l.startswith("FAIL C15 ")] + \
             ["FAIL C15 in-concurrent-session " + l[5:] for l in lines if l.startswith("FAIL ") and
-             not any(l.startswith("FAIL " + p + " ") for p in ("C02", "C04", "C08", "C11", "C12", "C34"))]
+             not any(l.startswith("FAIL " + p + " ") for p in ("C02", "C04", "C08", "C11", "C12", "C34", "C15"))]
     return {"lines": lines, "inputs": hist}
 
 
